@@ -171,6 +171,7 @@ class PathWalker:
         self.p_lo, self.p_hi, self.p_glo, self.p_ghi = (self.params[0], self.params[1],
                                                         self.params[3], self.params[4])
         self.atol_stores = {}
+        self.attr_stores = set()   # every attribute store (results.x = ..., self.x = ...)
         self.exits = []      # list of dict(sets=[(setter, [vals])], env, after_root, line)
         self.closures = {}   # name -> (FunctionDef, env snapshot) of the last path that saw it
         self.rootcall = None
@@ -233,6 +234,7 @@ class PathWalker:
                 self.assign(t, self.elem(value, i), st)
         elif isinstance(target, ast.Attribute):
             st["stores"].append((src_of(target, self.src), value))
+            self.attr_stores.add(src_of(target, self.src))
         else:
             raise TranslateError("assignment target outside the subset: %s"
                                  % src_of(target, self.src))
@@ -302,6 +304,7 @@ class PathWalker:
                     st["env"][s.target.id] = ("expr", src_of(s, self.src))
             else:
                 st["stores"].append((src_of(s.target, self.src), ("expr", src_of(s, self.src))))
+                self.attr_stores.add(src_of(s.target, self.src))
             return nxt(st)
         if isinstance(s, ast.Expr):
             c = s.value
@@ -329,8 +332,10 @@ class PathWalker:
                     return nxt(st)
                 if f.startswith(self.LOG_CALLS):
                     return nxt(st)
-            self.val(c, st)
-            return nxt(st)
+            # any other expression statement could act on `results` or on the object behind
+            # our back (e.g. self._post(results)): not understood, fail closed
+            raise TranslateError("expression statement outside the subset in solveWall: %s"
+                                 % src_of(s, self.src).splitlines()[0])
         if isinstance(s, (ast.Pass, ast.Assert)):
             return nxt(st)
         raise TranslateError("statement outside the subset in solveWall: %s"
@@ -558,18 +563,332 @@ def solvewall_facts(src):
                 extra_kw=extra_kw, atol0=atol0, atol0_first=atol0_first, atol2=atol2,
                 atol2_placed=atol2_placed, gmin=gmin, gmax=gmax,
                 gret=[guards[0][1], guards[1][1]], inner_ok=inner_ok and ncalls == 1,
-                npaths=len(w.exits))
+                npaths=len(w.exits), attr_stores=sorted(w.attr_stores),
+                messages=message_facts(src, fn),
+                wploop=wallpressure_loop_facts(src, eom), init=eom_init_facts(src, eom),
+                deton=detonation_facts(src, eom))
 
 
 # ---------------------------------------------------------------------------------------
 # WallGoManager: provenance of the solver objects
 
-class Prov:
-    """provenance of the value returned by a method of WallGoManager, per return statement"""
+# ---------------------------------------------------------------------------------------
+# messages of solveWall: which exit says what (used by the harness to classify an observed
+# message without relying on its wording)
 
-    def __init__(self, src, cls):
+def parents(fn):
+    par = {}
+    for n in ast.walk(fn):
+        for c in ast.iter_child_nodes(n):
+            par[c] = n
+    return par
+
+
+def mentions(node, *names):
+    found = set()
+    for n in ast.walk(node):
+        if isinstance(n, ast.Attribute):
+            found.add(n.attr)
+        elif isinstance(n, ast.Name):
+            found.add(n.id)
+    return any(x in found for x in names)
+
+
+def message_facts(src, fn):
+    par = parents(fn)
+    out = []
+    for n in ast.walk(fn):
+        if not (isinstance(n, ast.Call) and src_of(n.func, src) == "results.setSuccessState"):
+            continue
+        if len(n.args) < 3:
+            raise TranslateError("setSuccessState without a positional message")
+        # statement, its block owner and branch
+        stmt = n
+        while not isinstance(stmt, ast.stmt):
+            stmt = par[stmt]
+        owner = par[stmt]
+        in_while = False
+        a = stmt
+        while a is not fn:
+            a = par[a]
+            if isinstance(a, ast.While):
+                in_while = True
+        if isinstance(owner, ast.If) and stmt in owner.body:
+            t = owner.test
+            if in_while:
+                kind = "MsgPositiveAtZero"
+            elif mentions(t, "successTemperatureProfile"):
+                kind = "MsgTemperatureProfile"
+            elif mentions(t, "temperatureMinus"):
+                kind = "MsgTminusRange"
+            elif mentions(t, "temperaturePlus"):
+                kind = "MsgTplusRange"
+            elif mentions(t, "successWallPressure"):
+                kind = "MsgPressureNotConverged"
+            elif mentions(t, "converged"):
+                kind = "MsgRootFinder"
+            elif mentions(t, "wallThicknessBounds", "wallOffsetBounds"):
+                kind = "MsgSaturated"
+            elif isinstance(t, ast.Compare) and len(t.ops) == 1 and \
+                    isinstance(t.ops[0], ast.Lt) and isinstance(t.comparators[0], ast.Constant) \
+                    and t.comparators[0].value == 0:
+                kind = "MsgRunaway"
+            else:
+                raise TranslateError("cannot tell which exit this message belongs to: if %s"
+                                     % src_of(t, src))
+        elif isinstance(owner, ast.If) and stmt in owner.orelse:
+            kind = "MsgFound"
+        else:
+            raise TranslateError("setSuccessState outside an if/else")
+        m = n.args[2]
+        if isinstance(m, ast.Constant) and isinstance(m.value, str):
+            out.append((kind, "exact", m.value))
+        elif isinstance(m, ast.JoinedStr):
+            head = ""
+            for v in m.values:
+                if isinstance(v, ast.Constant):
+                    head += v.value
+                else:
+                    break
+            out.append((kind, "prefix", head))
+        elif isinstance(m, ast.Attribute) and m.attr == "flag":
+            out.append((kind, "flag", ""))
+        else:
+            raise TranslateError("message outside the subset: %s" % src_of(m, src))
+    return out
+
+
+# ---------------------------------------------------------------------------------------
+# the iteration of wallPressure: every way out of the loop other than the convergence test
+# must lower successWallPressure
+
+def wallpressure_loop_facts(src, cls):
+    fn = find_method(cls, "wallPressure")
+    par = parents(fn)
+    body = strip_doc(fn.body)
+    loops = [s for s in ast.walk(fn) if isinstance(s, (ast.While, ast.For))]
+    toploops = [s for s in body if isinstance(s, (ast.While, ast.For))]
+    if len(loops) != 1 or len(toploops) != 1:
+        raise TranslateError("wallPressure: expected exactly one loop, at top level "
+                             "(found %d)" % len(loops))
+    loop = loops[0]
+    kind = "while_true" if (isinstance(loop, ast.While) and isinstance(loop.test, ast.Constant)
+                            and loop.test.value is True and not loop.orelse) else "other"
+    is_store = lambda s, val: (isinstance(s, ast.Assign) and len(s.targets) == 1 and
+                               src_of(s.targets[0], src) == "self.successWallPressure" and
+                               isinstance(s.value, ast.Constant) and s.value.value is val)
+    li = body.index(loop)
+    set_true_before = any(is_store(s, True) for s in body[:li])
+    breaks = []
+    for n in ast.walk(loop):
+        if isinstance(n, (ast.Return, ast.Continue)):
+            raise TranslateError("wallPressure: return/continue inside the iteration")
+        if not isinstance(n, ast.Break):
+            continue
+        owner = par[n]
+        block = owner.body if n in owner.body else owner.orelse
+        stores_false = any(is_store(s, False) for s in block[:block.index(n)])
+        # the outermost `if` of the loop body that contains this break
+        a, top_if, chain = n, None, []
+        while a is not loop:
+            p_ = par[a]
+            if isinstance(p_, ast.If):
+                chain.append((p_, a in p_.body))
+                top_if = p_
+            a = p_
+        lt_guard = top_if is not None and any(
+            isinstance(c, ast.Compare) and any(isinstance(o, ast.Lt) for o in c.ops)
+            for c in ast.walk(top_if.test))
+        # the break itself sits in the if-branch (not an elif) of the convergence test
+        in_first_branch = all(inbody for _, inbody in chain[-1:])
+        maxit = any(mentions(i.test, "maxIterations") for i, inbody in chain if inbody)
+        breaks.append((stores_false, lt_guard and in_first_branch, maxit))
+    # every store of the flag anywhere in the class
+    writers = {}
+    for m in cls.body:
+        if isinstance(m, ast.FunctionDef):
+            for n in ast.walk(m):
+                if isinstance(n, (ast.Assign, ast.AugAssign, ast.AnnAssign)):
+                    targets = n.targets if isinstance(n, ast.Assign) else [n.target]
+                    for t in targets:
+                        for e in ast.walk(t):
+                            if isinstance(e, ast.Attribute) and e.attr in (
+                                    "successWallPressure", "successTemperatureProfile"):
+                                v = getattr(n, "value", None)
+                                lit = repr(v.value) if isinstance(v, ast.Constant) else "?"
+                                writers.setdefault(e.attr, set()).add("%s=%s" % (m.name, lit))
+    return dict(kind=kind, set_true_before=set_true_before, breaks=breaks,
+                writers={k: sorted(v) for k, v in writers.items()})
+
+
+# ---------------------------------------------------------------------------------------
+# EOM.__init__: the settings reach the attributes solveWall reads
+
+SETTING_ATTRS = ["errTol", "maxIterations", "pressRelErrTol", "thermo", "hydrodynamics", "grid",
+                 "boltzmannSolver", "forceEnergyConservation", "wallThicknessBounds",
+                 "wallOffsetBounds", "nbrFields"]
+
+
+def eom_init_facts(src, cls):
+    init = find_method(cls, "__init__")
+    params = [a.arg for a in init.args.args]
+    wiring = []
+    for s in strip_doc(init.body):
+        if isinstance(s, ast.Assign) and len(s.targets) == 1:
+            t = s.targets[0]
+            if isinstance(t, ast.Attribute) and isinstance(t.value, ast.Name) and \
+                    t.value.id == "self" and t.attr in SETTING_ATTRS:
+                wiring.append((t.attr, s.value.id if isinstance(s.value, ast.Name)
+                               and s.value.id in params else "?"))
+    for s in ast.walk(init):
+        if isinstance(s, (ast.If, ast.While, ast.For, ast.Try)):
+            raise TranslateError("EOM.__init__ is expected to be straight-line code")
+    others = []
+    for m in cls.body:
+        if isinstance(m, ast.FunctionDef) and m.name != "__init__":
+            for n in ast.walk(m):
+                if isinstance(n, (ast.Assign, ast.AugAssign, ast.AnnAssign)):
+                    targets = n.targets if isinstance(n, ast.Assign) else [n.target]
+                    for t in targets:
+                        for e in ast.walk(t):
+                            if isinstance(e, ast.Attribute) and isinstance(e.value, ast.Name) \
+                                    and e.value.id == "self" and e.attr in SETTING_ATTRS \
+                                    and e is t:
+                                others.append("%s: self.%s" % (m.name, e.attr))
+                elif isinstance(n, ast.Call) and isinstance(n.func, ast.Name) and \
+                        n.func.id in ("setattr", "delattr"):
+                    others.append("%s: %s" % (m.name, n.func.id))
+    return dict(wiring=wiring, others=sorted(set(others)))
+
+
+# ---------------------------------------------------------------------------------------
+# findWallVelocityDetonation: the tuples handed to solveWall belong to the bracket ends handed
+# to it.  Symbolic run of the scan loop (two iterations): every name holds a symbol; a tuple
+# returned by self.wallPressure(v, ...) remembers the symbol of v; `a = b` and
+# copy.deepcopy(b) copy symbols; anything else makes a fresh symbol.
+
+def detonation_facts(src, cls):
+    fn = find_method(cls, "findWallVelocityDetonation")
+    counter = [0]
+
+    def fresh():
+        counter[0] += 1
+        return ("sym", counter[0])
+
+    env = {a.arg: fresh() for a in fn.args.args}
+    checks = []
+    calls = [0]
+
+    def val(node):
+        if isinstance(node, ast.Name):
+            return env.setdefault(node.id, fresh())
+        if isinstance(node, ast.Call):
+            f = src_of(node.func, src)
+            if is_self_call(node, "wallPressure") and node.args:
+                return ("tuple_at", val(node.args[0]))
+            if f in ("copy.deepcopy", "deepcopy", "copy.copy") and len(node.args) == 1:
+                return val(node.args[0])
+        if isinstance(node, ast.Subscript) and isinstance(node.slice, ast.Constant):
+            return ("elem", val(node.value), node.slice.value)
+        return fresh()
+
+    def assign(t, v):
+        if isinstance(t, ast.Name):
+            env[t.id] = v
+        elif isinstance(t, (ast.Tuple, ast.List)):
+            for i, e in enumerate(t.elts):
+                assign(e, ("elem", v, i))
+
+    def check_call(node, guards):
+        calls[0] += 1
+        a = node.args
+        if len(a) < 5:
+            checks.append((False, False))
+            return
+        lo, hi, tlo, thi = val(a[0]), val(a[1]), val(a[3]), val(a[4])
+        pairing = tlo == ("tuple_at", lo) and thi == ("tuple_at", hi)
+        # guard: pressure(hi) >= 0 >= pressure(lo)
+        g_ok = False
+        for g in guards:
+            if isinstance(g, ast.Compare) and len(g.ops) == 2 and \
+                    all(isinstance(o, ast.GtE) for o in g.ops) and \
+                    isinstance(g.comparators[0], ast.Constant) and g.comparators[0].value == 0:
+                if val(g.left) == ("elem", ("tuple_at", hi), 0) and \
+                        val(g.comparators[1]) == ("elem", ("tuple_at", lo), 0):
+                    g_ok = True
+        checks.append((pairing, g_ok))
+
+    def run(stmts, guards):
+        for s in stmts:
+            for n in ast.walk(s) if not isinstance(s, (ast.If, ast.While, ast.For)) else []:
+                if is_self_call(n, "solveWall"):
+                    check_call(n, guards)
+            if isinstance(s, ast.Assign):
+                v = val(s.value)
+                for t in s.targets:
+                    assign(t, v)
+            elif isinstance(s, ast.AnnAssign) and s.value is not None:
+                assign(s.target, val(s.value))
+            elif isinstance(s, ast.AugAssign) and isinstance(s.target, ast.Name):
+                env[s.target.id] = fresh()
+            elif isinstance(s, ast.If):
+                run(s.body, guards + [s.test])
+                run(s.orelse, guards)
+            elif isinstance(s, ast.While):
+                run(s.body, guards)
+                run(s.body, guards)
+            elif isinstance(s, ast.For):
+                raise TranslateError("findWallVelocityDetonation: for loop")
+
+    run(strip_doc(fn.body), [])
+    if not checks:
+        raise TranslateError("findWallVelocityDetonation does not call self.solveWall")
+    # the window handed over by the manager
+    return dict(checks=checks)
+
+
+
+def prov_coq(p):
+    k = p[0]
+    q = lambda t: '"%s"' % str(t).replace('"', "'").replace("\n", " ")[:80]
+    if k == "new":
+        return "(PNew %s [%s])" % (q(p[1]), "; ".join("(%s, %s)" % (q(n), prov_coq(a))
+                                                         for n, a in p[2]))
+    if k == "call":
+        return "(PCall %s [%s])" % (q(p[1]), "; ".join(prov_coq(a) for a in p[2]))
+    if k == "self":
+        return "(PSelf %s)" % q(p[1])
+    if k == "param":
+        return "(PParam %s)" % q(p[1])
+    if k == "field":
+        return "(PField %s %s)" % (prov_coq(p[1]), q(p[2]))
+    if k == "stored":
+        return "(PStored %s)" % q(p[1])
+    if k == "phi":
+        return "(PPhi [%s])" % "; ".join(prov_coq(a) for a in p[1])
+    return "(POther %s)" % q(p[1])
+
+
+def phi(ps):
+    uniq = []
+    for x in ps:
+        if x not in uniq:
+            uniq.append(x)
+    uniq.sort(key=repr)
+    return uniq[0] if len(uniq) == 1 else ("phi", tuple(uniq))
+
+
+class Prov:
+    """provenance of the value returned by a method of WallGoManager, per return statement.
+    Constructor calls keep their argument NAMES (positional arguments are named after the
+    constructor's signature when it is known, see `signatures`)."""
+
+    def __init__(self, src, cls, signatures=None):
         self.src, self.cls = src, cls
+        self.signatures = signatures or {}
         self.stack = []
+        self.self_stores = []      # every store on self made by the methods walked
+        self.local_stores = []     # (local.attr, provenance) for attribute stores on locals
 
     def method_returns(self, name, bindings=None):
         bindings = bindings or {}
@@ -587,6 +906,10 @@ class Prov:
                     for t in targets:
                         if isinstance(t, ast.Name):
                             assigns.setdefault(t.id, []).append(n.value)
+                        elif isinstance(t, (ast.Tuple, ast.List)):
+                            for e in ast.walk(t):
+                                if isinstance(e, ast.Name):
+                                    assigns.setdefault(e.id, []).append(None)
                 elif isinstance(n, (ast.AugAssign, ast.NamedExpr, ast.For, ast.With)):
                     tgt = getattr(n, "target", None)
                     if isinstance(tgt, ast.Name):
@@ -597,80 +920,108 @@ class Prov:
                 if isinstance(n, ast.Return):
                     outs.append(self.prov(n.value, assigns, params, 0))
             if not outs:
-                outs.append("(POther \"no return\")")
-            # stores of freshly built objects into self (a cache being filled)
-            stores = []
+                outs.append(("other", "no return"))
             for n in ast.walk(fn):
                 if isinstance(n, (ast.Assign, ast.AugAssign, ast.AnnAssign)):
                     targets = n.targets if isinstance(n, ast.Assign) else [n.target]
                     for t in targets:
+                        if not isinstance(t, (ast.Subscript, ast.Attribute)):
+                            continue
                         base = t
                         while isinstance(base, (ast.Subscript, ast.Attribute)):
                             base = base.value
-                        if isinstance(t, (ast.Subscript, ast.Attribute)) and \
-                                isinstance(base, ast.Name) and base.id == "self":
-                            stores.append(src_of(t, self.src))
-            return outs, stores
+                        if isinstance(base, ast.Name) and base.id == "self":
+                            self.self_stores.append("%s: %s" % (name, src_of(t, self.src)))
+                        else:
+                            val = getattr(n, "value", None)
+                            pv = self.prov(val, assigns, params, 0) \
+                                if isinstance(n, ast.Assign) else ("stored", "augmented")
+                            self.local_stores.append(
+                                (t.attr if isinstance(t, ast.Attribute) else "<item>", pv))
+                elif isinstance(n, ast.Call) and isinstance(n.func, ast.Name) and \
+                        n.func.id == "setattr":
+                    self.self_stores.append("%s: setattr" % name)
+            return outs
         finally:
             self.stack.pop()
 
     def prov(self, node, assigns, params, depth):
-        if depth > 14:
-            return "(POther \"too deep\")"
+        rec = lambda x: self.prov(x, assigns, params, depth + 1)
+        if depth > 16:
+            return ("stored", "too deep")
         if node is None:
-            return "(POther \"None\")"
+            return ("stored", "loop/unpacked/augmented value")
         if isinstance(node, ast.Name):
             if node.id in assigns:
-                ps = [self.prov(v, assigns, params, depth + 1) for v in assigns[node.id]]
-                ps = sorted(set(ps))
-                return ps[0] if len(ps) == 1 else "(PPhi [%s])" % "; ".join(ps)
+                return phi([rec(v) for v in assigns[node.id]])
             if node.id in params:
-                return params[node.id] or "(PParam \"%s\")" % node.id
-            return "(PStored \"global %s\")" % node.id
+                return params[node.id] or ("param", node.id)
+            if node.id in ("True", "False", "None"):
+                return ("other", "const")
+            return ("stored", "global %s" % node.id)
+        if isinstance(node, ast.Constant):
+            return ("other", "const")
         if isinstance(node, ast.Call):
             f = node.func
             if isinstance(f, ast.Name) and f.id[:1].isupper():
-                args = [self.prov(a, assigns, params, depth + 1) for a in node.args] + \
-                       [self.prov(k.value, assigns, params, depth + 1) for k in node.keywords]
-                return "(PNew \"%s\" [%s])" % (f.id, "; ".join(args))
+                sig = self.signatures.get(f.id, [])
+                args = []
+                for i, a in enumerate(node.args):
+                    if isinstance(a, ast.Starred):
+                        args.append(("*", rec(a.value)))
+                    else:
+                        args.append((sig[i] if i < len(sig) else "#%d" % i, rec(a)))
+                for k in node.keywords:
+                    args.append((k.arg or "**", rec(k.value)))
+                return ("new", f.id, tuple(args))
             if is_self_call(node):
-                # inline the callee's returns, binding its parameters to our arguments
                 callee = find_method(self.cls, f.attr)
                 names = [a.arg for a in callee.args.args if a.arg != "self"]
                 bind = {}
                 for nm, a in zip(names, node.args):
-                    bind[nm] = self.prov(a, assigns, params, depth + 1)
+                    bind[nm] = rec(a)
                 for k in node.keywords:
                     if k.arg:
-                        bind[k.arg] = self.prov(k.value, assigns, params, depth + 1)
-                outs, _ = self.method_returns(f.attr, bind)
-                outs = sorted(set(outs))
-                return outs[0] if len(outs) == 1 else "(PPhi [%s])" % "; ".join(outs)
-            return "(POther \"call %s\")" % src_of(f, self.src).replace('"', "'")
+                        bind[k.arg] = rec(k.value)
+                return phi(self.method_returns(f.attr, bind))
+            fname = src_of(f, self.src)
+            return ("call", fname, tuple([rec(a.value if isinstance(a, ast.Starred) else a)
+                                          for a in node.args] +
+                                         [rec(k.value) for k in node.keywords]))
         if isinstance(node, ast.Attribute):
             if isinstance(node.value, ast.Name) and node.value.id == "self":
-                return "(PSelf \"%s\")" % node.attr
-            return "(PField %s \"%s\")" % (self.prov(node.value, assigns, params, depth + 1),
-                                           node.attr)
-        if isinstance(node, ast.Subscript):
-            return "(PStored \"%s\")" % src_of(node, self.src).replace('"', "'")
-        if isinstance(node, (ast.BinOp, ast.Constant, ast.UnaryOp, ast.Compare)):
-            return "(POther \"scalar\")"
+                return ("self", node.attr)
+            return ("field", rec(node.value), node.attr)
+        if isinstance(node, ast.BinOp):
+            return ("call", "<op>", (rec(node.left), rec(node.right)))
+        if isinstance(node, ast.UnaryOp):
+            return ("call", "<op>", (rec(node.operand),))
+        if isinstance(node, ast.Compare):
+            return ("call", "<op>", tuple([rec(node.left)] + [rec(c) for c in node.comparators]))
+        if isinstance(node, ast.BoolOp):
+            return ("call", "<op>", tuple(rec(v) for v in node.values))
         if isinstance(node, ast.IfExp):
-            ps = sorted({self.prov(node.body, assigns, params, depth + 1),
-                         self.prov(node.orelse, assigns, params, depth + 1)})
-            return ps[0] if len(ps) == 1 else "(PPhi [%s])" % "; ".join(ps)
-        return "(PStored \"%s\")" % src_of(node, self.src).replace('"', "'")[:60]
+            return phi([rec(node.body), rec(node.orelse)])
+        if isinstance(node, (ast.Tuple, ast.List)):
+            return ("call", "<tuple>", tuple(rec(e) for e in node.elts))
+        return ("stored", src_of(node, self.src)[:60])
 
 
-def manager_facts(src):
+def init_signature(src, clsname):
+    cls = find_class(ast.parse(src), clsname)
+    fn = find_method(cls, "__init__")
+    return [a.arg for a in fn.args.args if a.arg != "self"]
+
+
+def manager_facts(src, signatures=None):
     tree = ast.parse(src)
     cls = find_class(tree, "WallGoManager")
-    pv = Prov(src, cls)
+    pv = Prov(src, cls, signatures)
     out = {}
-    rets, stores = pv.method_returns("setupWallSolver")
+    rets = pv.method_returns("setupWallSolver")
     out["setup_returns"] = rets
-    out["setup_stores"] = stores
+    out["setup_stores"] = sorted(set(pv.self_stores))
+    out["local_stores"] = pv.local_stores
     # receivers of the EOM calls in solveWall / solveWallDetonation
     for m, callee in (("solveWall", "findWallVelocityDeflagrationHybrid"),
                       ("solveWallDetonation", "findWallVelocityDetonation")):
@@ -719,7 +1070,7 @@ def coq_str_list(xs):
 
 def generate(eom_src, mgr_src):
     f = solvewall_facts(eom_src)
-    m = manager_facts(mgr_src)
+    m = manager_facts(mgr_src, {"EOM": init_signature(eom_src, "EOM")})
     L = []
     L.append("(* GENERATED by tools/gen_eom_facts.py from src/WallGo/equationOfMotion.py and "
              "src/WallGo/manager.py -- do not edit *)")
@@ -786,14 +1137,53 @@ def generate(eom_src, mgr_src):
     L.append("Definition gen_exit_success : list (string * list string) :=\n  [%s]." % ";\n   ".join(
         '("%s", %s)' % (k, coq_str_list(sorted(v))) for k, v in sorted(f["exits"].items())))
     L.append("")
+    L.append("(** attribute stores made directly by solveWall (everything else goes through the "
+             "setters of results) *)")
+    L.append("Definition gen_solveWall_attribute_stores : list string := %s."
+             % coq_str_list(f["attr_stores"]))
+    L.append("(** exits of solveWall and the kind of message each one carries (AST order) *)")
+    L.append("Definition gen_message_kinds : list msgKind := [%s]."
+             % "; ".join(k for k, _, _ in f["messages"]))
+    L.append("")
+    L.append("(** the iteration of wallPressure *)")
+    wl = f["wploop"]
+    L.append("Definition gen_wp_loop_kind : string := \"%s\"." % wl["kind"])
+    L.append("Definition gen_wp_flag_raised_before_loop : bool := %s."
+             % coq_bool(wl["set_true_before"]))
+    L.append("(* one entry per `break`: lowers successWallPressure first / sits in the branch of "
+             "a `<` test at loop level / guarded by maxIterations *)")
+    L.append("Definition gen_wp_breaks : list (bool * bool * bool) := [%s]." % "; ".join(
+        "(%s, %s, %s)" % tuple(coq_bool(x) for x in b) for b in wl["breaks"]))
+    L.append("Definition gen_flag_writers : list (string * list string) := [%s]." % "; ".join(
+        '("%s", %s)' % (k, coq_str_list(v)) for k, v in sorted(wl["writers"].items())))
+    L.append("")
+    L.append("(** EOM.__init__: attribute <- constructor parameter; stores of these attributes "
+             "elsewhere in the class *)")
+    L.append("Definition gen_eom_init_wiring : list (string * string) := [%s]." % "; ".join(
+        '("%s", "%s")' % w for w in f["init"]["wiring"]))
+    L.append("Definition gen_eom_setting_stores_elsewhere : list string := %s."
+             % coq_str_list(f["init"]["others"]))
+    L.append("")
+    L.append("(** findWallVelocityDetonation -> solveWall call sites (symbolic run, two scan "
+             "iterations): tuples belong to the ends / guard is p(hi) >= 0 >= p(lo) *)")
+    L.append("Definition gen_deton_callsites : list (bool * bool) := [%s]." % "; ".join(
+        "(%s, %s)" % (coq_bool(a), coq_bool(b)) for a, b in f["deton"]["checks"]))
+    L.append("")
     L.append("(** WallGoManager: provenance of what setupWallSolver returns *)")
-    L.append("Inductive prov :=\n  | PNew (cls : string) (args : list prov)\n  | PSelf (attr : string)"
+    L.append("Inductive prov :=\n  | PNew (cls : string) (args : list (string * prov))"
+             "\n  | PCall (f : string) (args : list prov)\n  | PSelf (attr : string)"
              "\n  | PParam (name : string)\n  | PField (p : prov) (attr : string)"
              "\n  | PStored (what : string)\n  | PPhi (alts : list prov)\n  | POther (what : string).")
     L.append("Definition gen_setupWallSolver_returns : list prov :=\n  [%s]."
-             % ";\n   ".join(m["setup_returns"]))
+             % ";\n   ".join(prov_coq(r) for r in m["setup_returns"]))
+    L.append("(* every store on self made by setupWallSolver or a manager method it calls *)")
     L.append("Definition gen_setupWallSolver_stores_on_self : list string := %s."
              % coq_str_list(s.replace('"', "'") for s in m["setup_stores"]))
+    L.append("(* attribute stores on local objects in those methods, with the provenance of "
+             "the value *)")
+    L.append("Definition gen_setupWallSolver_local_stores : list (string * prov) := [%s]."
+             % "; ".join('("%s", %s)' % (n.replace('"', "'"), prov_coq(v))
+                         for n, v in m["local_stores"]))
     for k in ("solveWall", "solveWallDetonation"):
         L.append("Definition gen_%s_uses_fresh_setup : bool := %s."
                  % (k, coq_bool(m["recv_" + k] and m["ret_" + k])))
